@@ -215,6 +215,9 @@ private:
   {
     SessionId id{0};
     std::chrono::steady_clock::time_point lastUsed{};
+    /// Opened with TlsMode::Client (https URL). A cached connection is reused
+    /// only by requests of the same scheme.
+    bool tls{false};
   };
 
   // ── RFC 9112 §6.3/§7.1 response framing types (declared before the methods
@@ -764,12 +767,15 @@ private:
       if (it != _connections.end())
       {
         auto now = std::chrono::steady_clock::now();
-        if (now - it->second.lastUsed < _config.connectionIdleTimeout)
+        if (it->second.tls == parsedUrl.isHttps() &&
+            now - it->second.lastUsed < _config.connectionIdleTimeout)
         {
           it->second.lastUsed = now;
           return it->second.id;
         }
-        // Idle: close and evict, then fall through to reconnect.
+        // Idle, or opened for the other scheme (an https request must never ride
+        // a plain connection, nor an http request a TLS one): close and evict,
+        // then fall through to reconnect.
         _transport->close(it->second.id);
         _connections.erase(it);
       }
@@ -799,7 +805,8 @@ private:
     // (4) Publish the new connection (short critical section).
     {
       std::lock_guard<std::mutex> lock(_mutex);
-      _connections[hostPort] = ConnectionEntry{sessionId, std::chrono::steady_clock::now()};
+      _connections[hostPort] =
+        ConnectionEntry{sessionId, std::chrono::steady_clock::now(), parsedUrl.isHttps()};
     }
 
     return sessionId;
